@@ -85,7 +85,34 @@ def runSpecState (m : Spec) : List Op → Spec
 /-- any operation sequence on any well-formed tree answers exactly like the map it denotes. -/
 theorem run_refines_from (t : Tree) (h : Inv t) (ops : List Op) :
     runModel t ops = runSpec (lookup t) ops := by
-  sorry -- PROOF TO BE FILLED: induction on ops (generalizing t) using the four refinement theorems
+  induction ops generalizing t with
+  | nil => rfl
+  | cons op ops ih =>
+    cases op with
+    | put k v =>
+      obtain ⟨h1, h2, h3⟩ := put_refines t k v h
+      simp only [runModel, runSpec, stepModel, stepSpec]
+      rw [ih _ h2, h1, funext h3]
+    | uput k v =>
+      obtain ⟨ha, hb⟩ := uput_refines t k v h
+      simp only [runModel, runSpec, stepModel, stepSpec]
+      cases hl : lookup t k with
+      | some w =>
+        obtain ⟨h1, h2⟩ := ha (by rw [hl]; rfl)
+        simp only [Option.isSome_some, if_true]
+        rw [h2, ih _ h, h1]
+      | none =>
+        obtain ⟨h1, h2, h3⟩ := hb hl
+        simp only [Option.isSome_none, Bool.false_eq_true, if_false]
+        rw [ih _ h2, h1, funext h3]
+    | get k =>
+      simp only [runModel, runSpec, stepModel, stepSpec]
+      rw [ih _ h, get_refines t k h]
+      rfl
+    | remove k d =>
+      obtain ⟨h1, h2, h3⟩ := remove_refines t k d h
+      simp only [runModel, runSpec, stepModel, stepSpec]
+      rw [ih _ h2, h1, funext h3]
 
 /-- from a fresh storage: every reachable state, every sequence. -/
 theorem run_refines (ops : List Op) : runModel Tree.empty ops = runSpec (fun _ => none) ops := by
